@@ -419,7 +419,18 @@ func c02Gen(r *rand.Rand, n int, tier string) []string {
 			target := pick(r, nodes)
 			switch k := r.Intn(12); {
 			case k < 6:
-				toks = append(toks, side+":np:"+hxs(target)+":"+pt())
+				if r.Intn(5) == 0 {
+					// one batch with two writes of ONE identity, spelled with key "" and with key "0": the newer one counts
+					ty := hxs(pick(r, []string{"value", "level"}))
+					p1 := fmt.Sprintf("%s,%s,%s,-,%d,0,-,-", ty, "-", valStr(float64(r.Intn(9))), tick())
+					p2 := fmt.Sprintf("%s,%s,%s,-,%d,0,-,-", ty, hxs("0"), valStr(float64(10+r.Intn(9))), tick())
+					if r.Intn(2) == 0 {
+						p1, p2 = p2, p1
+					}
+					toks = append(toks, side+":np:"+hxs(target)+":"+p1+"+"+p2)
+				} else {
+					toks = append(toks, side+":np:"+hxs(target)+":"+pt())
+				}
 			case k < 7:
 				toks = append(toks, side+":ep:"+hxs(target)+":"+hxs(parentOf[target])+":"+fmt.Sprintf("%s,-,%s,%s,%d,0,-,-", hxs("role"), valStr(float64(r.Intn(3))), hxs("r"), tick()))
 			case k < 9: // a node created on one side only, sometimes with a child and points
